@@ -716,10 +716,22 @@ func (c *Ctx) rulesR5misc(only string, a *coreAnchors) {
 		c.rule("C08.ack", "the call closure of handlerLoop hands a result back on handlerEnd for every call it accepts: each `return true` (keep serving) is reached only through the select that sends on handlerEnd - processHandlers waits for exactly that, and an unanswered call (e.g. a skipped invalid event) runs into HandlerTimeout + HandlerDeadline, forks the loop, flushes the queue with the pending Exception and puts the machine into backoff")
 		if a.emitEvents != nil && a.emitFinal != nil && a.recoverFinal != nil {
 			n := 0
-			for i, s := range c.callsTo(a.emitEvents, a.emitFinal) {
+			// in emitEvents or in the phase helper both calls were moved into
+			var efSites, rfSites []callSite
+			for _, hf := range c.hostedFns(a.emitEvents) {
+				if hf == a.emitFinal || hf == a.recoverFinal || c.hostedBy(hf, a.emitFinal) || c.hostedBy(hf, a.recoverFinal) {
+					continue
+				}
+				efSites = append(efSites, c.callsTo(hf, a.emitFinal)...)
+				rfSites = append(rfSites, c.callsTo(hf, a.recoverFinal)...)
+			}
+			for i, s := range efSites {
 				n++
 				good := false
-				for _, rs := range c.callsTo(a.emitEvents, a.recoverFinal) {
+				for _, rs := range rfSites {
+					if rs.Instr.Parent() != s.Instr.Parent() {
+						continue
+					}
 					if !canReach(s.Instr, rs.Instr) {
 						continue
 					}
